@@ -39,9 +39,13 @@ def dblG (A X Y Z : F) : P3 F :=
   let X3 := C * C + D + A * Z3
   (X3, X * X * (X * X) * Z3 + (D + Z3) * X3, Z3)
 
+/-- reading a store after a write (used instead of unfolding `upd`: much cheaper proof terms) -/
+theorem get_upd {G : Type} (st : Store G) (d : Nat) (v : G) (i : Nat) :
+    (upd st d v).get i = if i = d then v else st.get i := rfl
+
 macro "exec_simp" "[" ts:Lean.Parser.Tactic.simpLemma,* "]" : tactic =>
   `(tactic| simp [run2, curveB, mkCurve2, ec2AddLD, ec2SubLD, ec2DblLD, ec2DblLDTail, Prog.run, Prog.block,
-      Instr.exec, upd, get3, fieldFld, cX, cY, cZ, rA, rB, sc, sa, sb, sk, slotA, slotB, put3, base, aa, gg, $ts,*])
+      Instr.exec, get_upd, get3, fieldFld, cX, cY, cZ, rA, rB, sc, sa, sb, sk, slotA, slotB, put3, base, aa, gg, $ts,*])
 
 /-- close a goal `(x, y, z) = addG …`/`dblG …` that is not syntactically the closed form -/
 macro "close_form" : tactic =>
